@@ -45,4 +45,4 @@ else
     echo "== $P exit=$CODE"; echo "$OUT" | grep -E "^violation|VIOLATION|harness" | cut -c1-400
   done
 fi
-git -C /repo worktree remove --force $S/wt; git -C /repo worktree prune
+[ -n "${KEEP:-}" ] || { git -C /repo worktree remove --force $S/wt; git -C /repo worktree prune; }
